@@ -2111,7 +2111,7 @@ pub fn main(cli: &Cli) -> i32 {
                     let mut sched_info = Value::Null;
                     if acc.violations.len() < 2 {
                         let base = m.clone();
-                        if let Some((k2, info)) = minimise_schedule(&m.knobs, &f.sig, 150, &|kn: &ExecKnobs| {
+                        if let Some((k2, info)) = minimise_schedule(&m.knobs, &f.sig, 100, &|kn: &ExecKnobs| {
                             let mut c = base.clone();
                             c.knobs = kn.clone();
                             let r = run_case(&c);
